@@ -28,6 +28,7 @@ func init() {
 			return
 		}
 		n := 0
+		defs := localDefs(info, fd.Body)
 		ast.Inspect(fd.Body, func(nd ast.Node) bool {
 			switch x := nd.(type) {
 			case *ast.ReturnStmt:
@@ -35,7 +36,7 @@ func init() {
 				key := "FloatToString:return#" + itoa(n)
 				ok := false
 				if len(x.Results) == 1 {
-					if call, isC := unparen(x.Results[0]).(*ast.CallExpr); isC {
+					if call, isC := defs.resolve1(info, x.Results[0]).(*ast.CallExpr); isC {
 						if fn, isF := callee(info, call).(*types.Func); isF && fn.Pkg() != nil && fn.Pkg().Path() == "strconv" && fn.Name() == "FormatFloat" && len(call.Args) == 4 {
 							if id, isI := unparen(call.Args[0]).(*ast.Ident); isI && info.ObjectOf(id) == param {
 								ok = true
